@@ -1,18 +1,22 @@
 """C01 — reliable, ordered, exactly-once stream delivery over any lossy network.
 
-proof:   AQ.Props.C01 about the end-to-end one-stream model AQ.Model.StreamSys
-         (send half + wire + receive half wired as connection.py wires them),
-         composing the C10 theorems about the two halves
-tie:     per directed stream of every simulated connection the op sequence
-         (write / emit / deliver / ack / lose / reset / discard) is derived from
-         harness-side observation of the two real QuicConnection objects and
-         replayed on the compiled model; every step's projected state is diffed
-oracle:  written from the property text, evaluated on the events the two real
-         connections hand to the application (prefix, exactly-once end marker,
-         completeness after a fair phase, no termination, no exception)
-runs:    five directed scenarios (DIRECTED: one per defect found so far, each
-         fails when its fix commit is reverted) + PRNG connections
-         (quick 60, thorough 1500); replay: ./check C01 --replay <file>
+proof:   AQ.Props.C01       one directed stream end to end (prefix, exactly-once end marker, no stream error,
+                            conservation, bounded progress, fuel-bounded fair schedule `c01_liveness_bounded_partial`)
+         AQ.Props.C01Multi  the connection's stream table: every per-stream theorem for every stream under any
+                            interleaving, discard rule, service queue
+         AQ.Props.C01Keys   1-RTT key-update bookkeeping: generations differ by at most one, the current
+                            generation is always readable, counterexamples for the two pre-fix behaviours
+tie:     per directed stream of every simulated connection the op sequence (write / emit / deliver / ack / lose /
+         reset / discards) is derived from harness-side observation of the two real QuicConnection objects and
+         replayed on the compiled model (`sys.`); the same run gives the stream-table op sequence (`tab.`:
+         api / arrive / report / serve with the observed loop iterations, inputs and queue tail) and the key-update
+         op sequence (`ku.`: request_key_update, every 1-RTT packet built, every decrypt attempt); the key-update
+         model is also compared with two real CryptoPairs on every op sequence of length 4 (thorough: 5) + random
+oracle:  written from the property text, evaluated on the events the two real connections hand to the
+         application (prefix, exactly-once end marker, completeness after a fair phase, no termination, no
+         exception; deliberate writes after FIN/reset must raise and change nothing)
+runs:    directed scenarios (DIRECTED: one per defect found so far, each fails when its fix is reverted)
+         + PRNG connections (quick 120, thorough 1500); replay: ./check C01 --replay <file> (every witness kind)
 """
 import collections
 import json
@@ -37,6 +41,8 @@ class Oracle:
         self.delivered = collections.defaultdict(bytearray)
         self.ends = collections.Counter()
         self.violations = []          # (kind, text)
+        self.expect_raise = False     # the next API call is a deliberate misuse (write after FIN / reset)
+        self.misuse = collections.Counter()
 
     def bad(self, kind, text):
         self.violations.append((kind, text))
@@ -67,6 +73,9 @@ class Oracle:
                                    f"frame_type={ev.frame_type} reason={ev.reason_phrase!r}")
 
     def on_raise(self, sim, ep, name, args, exc):
+        if self.expect_raise and isinstance(exc, (AssertionError, ValueError)):
+            self.misuse[type(exc).__name__] += 1
+            return
         self.bad("api-exception", f"{ep.name}.{name} raised {type(exc).__name__}: {exc}")
 
     def complete(self):
@@ -155,23 +164,26 @@ def run_conn(conn_seed, sc=None, directed=None, trace=True):
     the script that was executed (for replay) and the network log."""
     from harness import sim as simmod
     from harness.impl_streamsys import Tracer
+    from harness.impl_keyupdate import KeyTracer
 
     r = random.Random(f"c01-script/{conn_seed}")
     if sc is None:
         sc = scenario(r)
     orc = Oracle()
     tracer = Tracer()
+    keys = KeyTracer()
     other = V1 if sc["version"] == V2 else V2
     copts = {"congestion_control_algorithm": sc["cc"], "original_version": sc["version"],
              "supported_versions": [sc["version"], other]}
     sopts = {"congestion_control_algorithm": sc["cc"]}
     executed = []
-    res = {"seed": conn_seed, "scenario": sc, "oracle": orc, "tracer": tracer, "script": executed,
+    res = {"seed": conn_seed, "scenario": sc, "oracle": orc, "tracer": tracer, "keys": keys, "script": executed,
            "handshake": False, "fair_done": False}
+    keys.__enter__()
     tracer.__enter__()
     s = None
     try:
-        s = simmod.Sim(conn_seed, client_options=copts, server_options=sopts, monitors=[tracer, orc] if trace else [orc])
+        s = simmod.Sim(conn_seed, client_options=copts, server_options=sopts, monitors=[tracer, keys, orc] if trace else [orc])
         tracer.sim = s
         res["sim"] = s
         ok = s.handshake()
@@ -180,6 +192,7 @@ def run_conn(conn_seed, sc=None, directed=None, trace=True):
             orc.bad("handshake", "handshake did not complete over a loss-free network")
             return res
         res["version_on_wire"] = s.client.conn._version
+        keys.start(s)
         uid = [0]
 
         def app_action():
@@ -206,6 +219,16 @@ def run_conn(conn_seed, sc=None, directed=None, trace=True):
             sid = r.choice(own + peer_bidi)
             k = (ep.name, sid)
             if k in orc.fin or k in orc.reset:
+                if r.random() < 0.15:
+                    # application misuse: write after FIN / reset (also on a discarded stream id);
+                    # must raise (AssertionError, ValueError once the id is discarded) and change nothing
+                    executed.append((s.steps, ep.name, "send_stream_data", sid, 3, False, "misuse"))
+                    n0 = sum(orc.misuse.values())
+                    orc.expect_raise = True
+                    s.api(ep, "send_stream_data", sid, b"xyz")
+                    orc.expect_raise = False
+                    if sum(orc.misuse.values()) == n0:
+                        orc.bad("write-after-end", f"{k}: send_stream_data after FIN/reset was accepted")
                 return
             if k in orc.written and r.random() < sc["p_reset"] * 3:
                 code = r.randrange(1, 100)
@@ -241,9 +264,10 @@ def run_conn(conn_seed, sc=None, directed=None, trace=True):
         orc.final()
         tracer.finish()
     finally:
-        tracer.__exit__()
         if s is not None:
-            s.close_taps()
+            s.close_taps()          # first: the Sim's taps wrap the KeyTracer's wrappers
+        tracer.__exit__()
+        keys.__exit__()
     return res
 
 
@@ -375,12 +399,50 @@ def directed_key_update_lost(s, orc, executed):
     s.api(sv, "send_stream_data", 3, data, end_stream=True)
 
 
-DIRECTED = {"key-update-lost": directed_key_update_lost, "reset-reorder": directed_reset_reorder, "dup-fin": directed_dup_fin, "fin-only": directed_fin_only,
+def directed_rebind_challenge_lost(s, orc, executed):
+    """the client's address changes (NAT rebinding) for one ACK-only datagram;
+    the server's PATH_CHALLENGE on the new path is lost; the client has nothing
+    to send any more while the server has stream data"""
+    from harness import sim as simmod
+    c, sv = s.client, s.server
+    executed.append((s.steps, "server", "send_ping", 1))
+    s.api(sv, "send_ping", 1)
+    s.transmit(sv)
+    s.client.addr = simmod.CLIENT_ADDR2
+    s.log.append("rebind client")
+    for _ in range(6):
+        for d in [d for d in s.pending if d["dst"] is c]:
+            s.pending.remove(d)
+            s.now += 0.001
+            s.deliver(d)
+        if any(d["dst"] is sv for d in s.pending):
+            break
+        s.fire_timer(c)                    # delayed ACK
+    held = [d for d in s.pending if d["dst"] is sv]      # the client's ACK, still in the network
+    s.pending.clear()
+    data = bytes(range(200)) * 30
+    executed.append((s.steps, "server", "send_stream_data", 3, len(data), True))
+    orc.written[("server", 3)] += data
+    orc.fin.add(("server", 3))
+    s.api(sv, "send_stream_data", 3, data, end_stream=True)
+    s.transmit(sv)
+    for d in s.pending:
+        s.log.append(f"drop #{d['id']}")    # the first flight of the data is lost
+    s.pending.clear()
+    for d in held:
+        s.now += 0.001
+        s.deliver(d, simmod.CLIENT_ADDR2)   # the ACK arrives from the new address: the server switches path
+    for d in s.pending:
+        s.log.append(f"drop #{d['id']}")    # and what it could send there (PATH_CHALLENGE, a little data) is lost
+    s.pending.clear()
+
+
+DIRECTED = {"rebind-challenge-lost": directed_rebind_challenge_lost, "key-update-lost": directed_key_update_lost, "reset-reorder": directed_reset_reorder, "dup-fin": directed_dup_fin, "fin-only": directed_fin_only,
             "key-update-twice": directed_key_update_twice}
 
 
 INIT_LINE = ("ok | S[empty=1 hi=0 fin=0 rp=0 next=0 start=0 stop=0 bfin=none pend=[] peof=0 acked=[] afin=0] "
-             "R[hi=0 fin=0 start=0 fs=none rg=[] buflen=0 gone=0] wire=0 rwire=0 bytes=0 ends=0 resets=0")
+             "R[hi=0 fin=0 start=0 fs=none rg=[] buflen=0 gone=0] sgone=0 wire=0 rwire=0 bytes=0 ends=0 resets=0")
 
 
 def describe(res, limit=60):
@@ -401,6 +463,16 @@ def check_batch(ctx, results):
             cases.append(t.lines)
             impl += exp
             owners.append((res, key))
+    for res in results:
+        tr = res["tracer"]
+        cases.append(tr.tab_lines)
+        impl += tr.tab_expect
+        owners.append((res, ("stream-table",)))
+        kt = res["keys"]
+        if kt.lines:
+            cases.append(kt.lines)
+            impl += [e if e is not None else "<incomplete>" for e in kt.expect]
+            owners.append((res, ("key-update",)))
     if not cases:
         return
     model = lean.run_driver([l for c in cases for l in c])
@@ -436,6 +508,13 @@ def run_all(ctx, seeds, batch=25):
         stats["streams"] += len(tr.traces)
         for f in flags:
             stats["flag:" + f] += 1
+        for k, v in res["keys"].stats.items():
+            stats["keys:" + k] += v
+        for k, v in orc.misuse.items():
+            stats["misuse:" + k] += v
+        for p in res["keys"].problems[:3]:
+            ctx.broken.append({"kind": "broken-correspondence", "correspondence": "keyupdate-derivation",
+                               "problem": p, "conn": describe(res, 20)})
         sc = res["scenario"]
         stats[f"cc:{sc['cc']}"] += 1
         stats[f"version:{res.get('version_on_wire', 0):#x}"] += 1
@@ -454,7 +533,7 @@ def run_all(ctx, seeds, batch=25):
                 continue
             seen.add(kind)
             ctx.witness(f"{kind}: {text}", {**describe(res), "all_violations": [f"{k}: {t}" for k, t in orc.violations][:10]},
-                        {"oracle": kind})
+                        {"oracle": kind, "scenario": cs if cs in DIRECTED else "random"})
             stats["violation:" + kind] += 1
         for p in tr.problems[:3]:
             ctx.broken.append({"kind": "broken-correspondence", "correspondence": "streamsys-derivation",
@@ -472,29 +551,78 @@ def run_all(ctx, seeds, batch=25):
     return stats
 
 
+def pair_cases(r, thorough):
+    """key-update model vs two real CryptoPairs: every op sequence of length k
+    over {request A/B, send A/B, deliver 0..2}, then random longer ones"""
+    import itertools
+    alpha = ["ku.request 1", "ku.request 0", "ku.send 1 0", "ku.send 0 0", "ku.deliver 0", "ku.deliver 1", "ku.deliver 2"]
+    for seq in itertools.product(alpha, repeat=5 if thorough else 4):
+        yield ["ku.pnew 0"] + list(seq)
+    for _ in range(4000 if thorough else 300):
+        case, n = ["ku.pnew 0"], 0
+        for _ in range(r.randrange(5, 40)):
+            x = r.random()
+            if x < 0.2:
+                case.append(f"ku.request {r.randrange(2)}")
+            elif x < 0.55:
+                case.append(f"ku.send {r.randrange(2)} 0")
+                n += 1
+            else:
+                case.append(f"ku.deliver {r.randrange(n + 1)}")
+        yield case
+
+
+def check_pairs(ctx, thorough):
+    from harness.impl_keyupdate import PairImpl
+    r = rng.make("c01-keys")
+    cases = list(pair_cases(r, thorough))
+    impl = []
+    im = PairImpl()
+    rejected = updates = 0
+    for case in cases:
+        out = [im.step(l) for l in case]
+        impl += out
+        rejected += sum(o.startswith("rejected") for o in out)
+        updates += sum(o.startswith("accepted upd=1") for o in out)
+    model = lean.run_driver([l for c in cases for l in c])
+    for m in core.diff_streams(ctx, "keyupdate-pair", cases, impl, model)[:3]:
+        if m[0] >= 0:
+            ci, oi, il, ml = m
+            ctx.broken.append({"kind": "broken-correspondence", "correspondence": "keyupdate-pair",
+                               "ops": cases[ci][: oi + 1], "model": ml, "impl": il})
+    ctx.cov["traces_validated_against_impl"] += len(cases)
+    ctx.notes["keyupdate_pair"] = {"cases": len(cases), "ops": len(impl), "rejected": rejected, "remote_updates": updates}
+
+
 def main(tier):
     ctx = core.Ctx("C01", tier)
     tree.activate()
-    ctx.prove(["AQ.Props.C01"], [])
+    ctx.prove(["AQ.Props.C01", "AQ.Props.C01Multi", "AQ.Props.C01Keys"], [])
     ctx.cov["trusted_base"] = [
         "Lean 4.33.0 kernel (+ leanchecker in thorough tier)",
         "axioms: subset of {propext, Classical.choice, Quot.sound} (audited by #print axioms)",
-        "hand-written model AQ.Model.StreamSys (+ AQ.Model.Stream) tied to connection.py / stream.py by per-step "
-        "differential correspondence on op sequences derived from real connections (this run)",
-        "harness/sim.py, harness/impl_streamsys.py (derivation of ops + canonical lines), harness/frames.py",
+        "hand-written models AQ.Model.StreamSys (+ AQ.Model.Stream), AQ.Model.StreamTable, AQ.Model.KeyUpdate tied to "
+        "connection.py / stream.py / crypto.py by per-step differential correspondence on op sequences derived from "
+        "real connections and real CryptoPairs (this run)",
+        "harness/sim.py, harness/impl_streamsys.py, harness/impl_keyupdate.py (derivation of ops + canonical lines), "
+        "harness/frames.py",
     ]
     ctx.assumptions = [
-        "theorems are per stream and per direction; flow-control / stream-limit checks of _handle_stream_frame are "
-        "modelled as passing (C06/C07)",
+        "stream theorems are per directed stream, lifted to every stream of the connection table (C01Multi); "
+        "flow-control / stream-limit / direction checks are modelled as passing (C06/C07)",
+        "key-update theorems (C01Keys): AEAD abstraction (a packet authenticates only under the key generation that "
+        "protected it), ACK frames honest (C12), 1-RTT phase starts at packet number >= 1",
         "each emitted frame's delivery is reported at most once and only after emission (C08 callbacks-once); "
         "checked on every run by the derivation (a report naming no outstanding frame is a failure)",
-        "liveness: bounded-progress lemma proved; the temporal statement over infinite fair runs, loss detection / "
-        "PTO firing and packet protection (key update) are covered by the oracle runs only",
-        "the application does not write or reset after FIN/reset on the same stream",
+        "liveness: fuel-bounded fair schedule proved for the one-stream model under hypotheses (every in-flight "
+        "frame reported, ACK honesty, adequate builder space / credit); that loss detection, timers and path "
+        "validation establish them is covered by the oracle runs only",
+        "writes after FIN/reset on the same stream are exercised as misuse: they must raise and change nothing",
     ]
     thorough = tier == "thorough"
-    n = 1500 if thorough else 150
+    n = 1500 if thorough else 120
     base = ctx.seed * 1000003
+    check_pairs(ctx, thorough)
     stats = run_all(ctx, [base + i for i in range(n)])
     ctx.notes["stats"] = dict(stats)
     ctx.cov["rule"] = (
@@ -506,22 +634,80 @@ def main(tier):
     return ctx.finish()
 
 
+class _ReplayCtx:
+    """minimal ctx for re-diffing one connection"""
+
+    def __init__(self):
+        self.broken = []
+        self.cov = collections.defaultdict(int)
+
+
+def _rerun(cs):
+    if cs in DIRECTED:
+        return run_conn(cs, sc={**scenario(random.Random(0)), "cc": "reno", "version": V1}, directed=DIRECTED[cs])
+    return run_conn(int(cs) if not isinstance(cs, int) else cs)
+
+
 def replay(path):
+    """every witness kind this check can write:
+    impl-witness (oracle kinds: not-a-prefix, end-twice, end-unwritten, end-early, reset-unrequested, terminated,
+      api-exception, write-after-end, handshake, undelivered-bytes, undelivered-fin)  -> re-run the connection;
+    no-longer-checks entries: streamsys / stream-table / key-update / *-derivation (re-run the connection and
+      re-diff it against the model), keyupdate-pair (re-run the op lines on real CryptoPairs and the model),
+      broken-theorem / audit (rebuild the Lean module and show the log)."""
     tree.activate()
     d = json.load(open(path))
-    rp = d.get("replay") or {}
-    if "conn_seed" not in rp:
-        print(json.dumps(d, indent=1)[:4000])
-        return 0
-    cs = rp["conn_seed"]
-    if cs in DIRECTED:
-        res = run_conn(cs, sc={**scenario(random.Random(0)), "cc": "reno", "version": V1}, directed=DIRECTED[cs])
-    else:
-        res = run_conn(cs)
-    for k, t in res["oracle"].violations:
-        print(f"VIOLATION-REPRODUCED {k}: {t}")
-    for p in res["tracer"].problems:
-        print("DERIVATION-PROBLEM", p)
-    print("script:", res["script"][:50])
-    print("network log tail:", res["sim"].log[-40:] if "sim" in res else [])
-    return 1 if res["oracle"].violations else 0
+    rc = 0
+    if d.get("kind") == "impl-witness":
+        rp = d.get("replay") or {}
+        res = _rerun(rp["conn_seed"])
+        kinds = {k for k, _ in res["oracle"].violations}
+        for k, t in res["oracle"].violations:
+            print(f"VIOLATION-REPRODUCED {k}: {t}")
+        want = (d.get("signature") or {}).get("oracle")
+        print(f"recorded kind {want!r}: {'reproduced' if want in kinds else 'NOT reproduced on this tree'}")
+        print("script:", res["script"][:50])
+        print("network log tail:", res["sim"].log[-40:] if "sim" in res else [])
+        return 1 if res["oracle"].violations else 0
+    seen = set()
+    for b in d.get("broken", []):
+        corr = b.get("correspondence")
+        if corr == "keyupdate-pair":
+            from harness.impl_keyupdate import PairImpl
+            im = PairImpl()
+            ops = b["ops"]
+            impl = [im.step(l) for l in ops]
+            model = lean.run_driver(ops)
+            for l, i, m in zip(ops, impl, model):
+                print(("DIFF " if i != m else "     ") + l + "\n       impl  " + i + "\n       model " + m)
+            rc |= int(impl != model)
+        elif "conn" in b:
+            cs = b["conn"]["conn_seed"]
+            if cs in seen:
+                continue
+            seen.add(cs)
+            res = _rerun(cs)
+            for p in res["tracer"].problems + res["keys"].problems:
+                print("DERIVATION-PROBLEM", p)
+                rc = 1
+            rctx = _ReplayCtx()
+            res.pop("sim", None)
+            check_batch(rctx, [res])
+            for x in rctx.broken:
+                print("CORRESPONDENCE-DIFF", json.dumps({k: v for k, v in x.items() if k != "conn"}, default=str)[:1500])
+                rc = 1
+            if not rctx.broken:
+                print(f"connection {cs!r}: model and implementation agree on this tree")
+        elif b.get("kind") in ("broken-theorem", "audit"):
+            mod = b.get("module")
+            print(json.dumps(b, indent=1, default=str)[:3000])
+            if mod and mod != "leanchecker":
+                ok, log, _ = lean.lake_build([mod])
+                print(f"rebuild {mod}: {'ok' if ok else 'FAILED'}")
+                rc |= int(not ok)
+            else:
+                rc = 1
+        else:
+            print(json.dumps(b, indent=1, default=str)[:3000])
+            rc = 1
+    return rc
